@@ -218,9 +218,14 @@ WritePost(s, cv, c, o) ==
                      /\ \A i \in 1..Len(c.v) : /\ Len(c.v[i]) = 2 /\ c.v[i][2] >= 0
                                                /\ \/ (DyBits(c.v[i]) <= uw - 1 /\ (c.v[i][1] * Pow2(c.v[i][2])) % Pow2(uw - iw) = 0)
                                                   \/ (DyBits(c.v[i]) >= uw /\ s.cl = 1)     \* |v| >= 2^(u-1) with clipping on: saturates (C02)
-             tag  == IF Lossless(c.T, Sub(s.fmt), c.v) THEN c.T ELSE IF i2f THEN (IF Sub(s.fmt) = S_FLOAT THEN "f" ELSE "d") ELSE IF f2i THEN "i" ELSE "-"
+             \* integers written into a float / double file with SFC_SET_SCALE_INT_FLOAT_WRITE on: a short v is stored as v / 2^15, an int
+             \* v as v / 2^31 (in a float file rounded to 24 significant bits, as FloatOfL)
+             i2fs == c.T \in {"s", "i"} /\ Sub(s.fmt) \in {S_FLOAT, S_DOUBLE} /\ "dy" \in DOMAIN c /\ c.dy /\ "sif" \in DOMAIN s /\ s.sif = 1
+             tag  == IF Lossless(c.T, Sub(s.fmt), c.v) THEN c.T ELSE IF i2f \/ i2fs THEN (IF Sub(s.fmt) = S_FLOAT THEN "f" ELSE "d") ELSE IF f2i THEN "i" ELSE "-"
              wv   == IF Lossless(c.T, Sub(s.fmt), c.v) THEN c.v
                      ELSE IF i2f THEN [i \in 1..Len(c.v) |-> DyNorm(c.v[i], 0)]
+                     ELSE IF i2fs THEN [i \in 1..Len(c.v) |-> IF c.T = "s" THEN DyNorm(c.v[i], -15)
+                                                             ELSE IF Sub(s.fmt) = S_FLOAT THEN FloatOfL(c.v[i]) ELSE DoubleOfL(c.v[i])]
                      ELSE IF f2i THEN [i \in 1..Len(c.v) |->
                                           IF DyBits(c.v[i]) <= uw - 1 THEN c.v[i][1] * Pow2(c.v[i][2]) * Pow2(32 - uw)
                                           ELSE IF c.v[i][1] > 0 THEN 2147483647 - (Pow2(32 - iw) - 1)           \* the largest w-bit code, left justified
